@@ -317,10 +317,9 @@ def _get_comment_ending_at_line(code_lines: list[str], line: int) -> str:
         line_str = code_lines[start_line]
         if _contains_field_definition(line_str):
             break  # previous line is an assignment
-        if '"""' in line_str or "'''" in line_str:
-            break  # previous line has a docstring
         if not (_is_empty(line_str) or _is_comment(line_str)):
-            break  # previous line is code (e.g. the `class` line, possibly with its own comment)
+            # previous line is code (e.g. the `class` line, possibly with its own comment) or a docstring
+            break
         start_line -= 1
     start_line += 1
 
